@@ -241,6 +241,6 @@ bool_t zzSqrt(word b[], const word a[], size_t n, void* stack)
 size_t zzSqrt_deep(size_t n)
 {
 	const size_t m = (n + 1) / 2;
-	return m + 1 + m + zzDiv_deep(n, m);
+	return O_OF_W(m + 1 + m) + zzDiv_deep(n, m);
 }
 
